@@ -65,15 +65,17 @@ type Sim struct {
 	Stats *Stats
 	Solo  bool
 
-	epoch time.Time
-	heap  evHeap
-	seq   uint64
-	poke  chan struct{}
+	epoch  time.Time
+	heap   evHeap
+	seq    uint64
+	resSeq uint64
+	poke   chan struct{}
 
-	mu     sync.Mutex
-	outbox []*OutPkt
-	done   []*completion
-	parked []*parkedG
+	mu      sync.Mutex
+	outbox  []*OutPkt
+	done    []*completion
+	parked  []*parkedG
+	nParked int // goroutines currently parked at a yield point (guarded by mu)
 
 	Steps      int
 	MaxSteps   int
@@ -113,9 +115,10 @@ type Sim struct {
 
 	actors []*Actor
 	// SiteHits counts how often each yield site was passed (guarded by mu).
-	SiteHits map[string]int
-	goids    map[uint64]string
-	Yield    *YieldCtl
+	SiteHits   map[string]int
+	goids      map[uint64]string
+	driverGoid uint64
+	Yield      *YieldCtl
 }
 
 func NewSim(tape *Tape, solo bool) *Sim {
@@ -127,6 +130,7 @@ func NewSim(tape *Tape, solo bool) *Sim {
 	s.MaxVirtual = 30 * time.Minute
 	s.IdleTick = 50 * time.Millisecond
 	s.goids = map[uint64]string{}
+	s.driverGoid = goid()
 	s.SiteHits = map[string]int{}
 	return s
 }
@@ -166,7 +170,7 @@ func (s *Sim) Fail(prop, oracle, class, format string, args ...any) {
 // residue spreads harness-chosen instants over sub-microsecond offsets so that
 // they do not coincide with each other or with the library's millisecond-grid
 // timers.
-func (s *Sim) residue() time.Duration { return time.Duration(101 + (s.seq*37)%797) }
+func (s *Sim) residue() time.Duration { return time.Duration(101 + (s.resSeq*37)%797) }
 
 // At schedules f at absolute virtual time at (never in the past).
 func (s *Sim) At(at time.Duration, kind string, f func()) {
@@ -181,6 +185,11 @@ func (s *Sim) At(at time.Duration, kind string, f func()) {
 // After schedules f after d, with a unique sub-microsecond residue added.
 func (s *Sim) After(d time.Duration, kind string, f func()) {
 	s.seq++
+	// the residue sequence advances only here: events scheduled with At (such as
+	// the release of a goroutine parked after a wake-up, whose number can depend
+	// on a runtime choice between a stale token and an expired timer) must not
+	// shift the instants of anything else
+	s.resSeq++
 	heap.Push(&s.heap, &event{at: s.Now() + d + s.residue(), seq: s.seq, kind: kind, run: f})
 }
 
@@ -276,7 +285,9 @@ func (s *Sim) Run(finished func() bool) {
 		}
 		ev := heap.Pop(&s.heap).(*event)
 		s.Steps++
-		s.L.Shape(ev.kind)
+		if !strings.HasPrefix(ev.kind, "wake:") {
+			s.L.Shape(ev.kind)
+		}
 		if s.BeforeStep != nil {
 			s.BeforeStep()
 		}
@@ -288,6 +299,9 @@ func (s *Sim) Run(finished func() bool) {
 // (used for grace periods); harness events that become due are executed.
 func (s *Sim) Settle(d time.Duration) {
 	end := s.Now() + d
+	saveSteps, saveCap := s.MaxSteps, s.CapHit
+	s.MaxSteps = 1 << 60 // settling is not part of the workload's step budget
+	defer func() { s.MaxSteps = saveSteps; s.CapHit = saveCap }()
 	save, saveTick := s.MaxVirtual, s.IdleTick
 	if s.MaxVirtual < end+time.Second {
 		s.MaxVirtual = end + time.Second
@@ -607,12 +621,34 @@ func (s *Sim) yield(site string) {
 			return
 		}
 	}
-	who := s.goids[goid()]
+	gid := goid()
+	if gid == s.driverGoid {
+		// library code called directly by the driver must never park
+		s.mu.Unlock()
+		return
+	}
+	who := s.goids[gid]
 	p := &parkedG{site: site, who: who, ch: make(chan struct{}), since: s.Now()}
 	s.parked = append(s.parked, p)
+	s.nParked++
 	s.mu.Unlock()
 	s.pokeDriver()
 	<-p.ch
+}
+
+// Release lets a parked goroutine continue.
+func (s *Sim) Release(p *parkedG) {
+	s.mu.Lock()
+	s.nParked--
+	s.mu.Unlock()
+	close(p.ch)
+}
+
+// ParkedNow is the number of goroutines currently held at a yield point.
+func (s *Sim) ParkedNow() int {
+	s.mu.Lock()
+	defer s.mu.Unlock()
+	return s.nParked
 }
 
 // SetActive sets, for the coming step, which armed sites park.
